@@ -17,7 +17,7 @@ func randAPI(rng *rand.Rand, plat string, size int, tag string) *Scenario {
 		sc.GPUs = 1 + rng.Intn(4)
 		sc.LP = []int{10, 10, 11, 12}[rng.Intn(4)]
 		sc.H2DC, sc.D2HC = rng.Intn(6), rng.Intn(6)
-		sc.Env = []string{"rand", "rand", "fifo", "pieceslast", "flushlast"}[rng.Intn(5)]
+		sc.Env = []string{"rand", "rand", "fifo", "pieceslast", "flushlast", "kernslow"}[rng.Intn(6)]
 	case "benchmagic":
 		sc.GPUs = 1 + rng.Intn(4)
 		sc.LP = []int{10, 10, 11, 12}[rng.Intn(4)]
@@ -264,6 +264,44 @@ func randAPI(rng *rand.Rand, plat string, size int, tag string) *Scenario {
 			}
 			within = false
 			sc.Ops = append(sc.Ops, Op{Op: "run"})
+		case x == 19 && canKern && len(l) > 2:
+			// a kernel of one queue runs while copies of another queue (on a buffer the kernel does not
+			// touch) are processed; afterwards the kernel's output is read back
+			d, s := l[0], l[1]
+			o := l[2]
+			if sizes[d] < 8 || sizes[s] < 8 {
+				continue
+			}
+			nq++
+			qk := nq
+			nq++
+			qc := nq
+			kop := Op{Op: "kern", Ctx: ctxOf[d], GPU: 1 + rng.Intn(sc.GPUs), Q: qk}
+			if plat != "bench" {
+				m := sizes[d]
+				if sizes[s] < m {
+					m = sizes[s]
+				}
+				n := 4 * (1 + rng.Intn(64))
+				if n > m/4*4 {
+					n = m / 4 * 4
+				}
+				kop.Dst, kop.Src, kop.N = d+1, s+1, n
+			}
+			sc.Ops = append(sc.Ops, kop)
+			within = true
+			for j, k := 0, 3+rng.Intn(5); j < k; j++ {
+				off, n, ty := pickRange(o)
+				if rng.Intn(3) > 0 || !anyBits[ty] {
+					seed++
+					sc.Ops = append(sc.Ops, Op{Op: "h2d", B: o + 1, Off: off, N: n, Ty: ty, Seed: seed, Ctx: ctxOf[o], Q: qc})
+				} else {
+					sc.Ops = append(sc.Ops, Op{Op: "d2h", B: o + 1, Off: off, N: n, Ty: ty, Ctx: ctxOf[o], Q: qc})
+				}
+			}
+			within = false
+			sc.Ops = append(sc.Ops, Op{Op: "run"})
+			sc.Ops = append(sc.Ops, Op{Op: "d2h", B: d + 1, Off: 0, N: sizes[d], Ctx: ctxOf[d]})
 		case x == 18 && len(l) > 2 && rng.Intn(3) == 0:
 			freed[b] = true
 			sc.Ops = append(sc.Ops, Op{Op: "free", B: b + 1})
